@@ -1,0 +1,12 @@
+//go:build verif
+
+package v1beta1
+
+import (
+	"github.com/kubeflow/katib/pkg/util/v1beta1/katibclient"
+)
+
+// NewVerifKatibUIHandler builds a KatibUIHandler around an injected katib client.
+func NewVerifKatibUIHandler(kc katibclient.Client, dbManagerAddr string) *KatibUIHandler {
+	return &KatibUIHandler{katibClient: kc, dbManagerAddr: dbManagerAddr}
+}
